@@ -323,19 +323,20 @@ def _e(p, rs):
 
 # ---- regressors -------------------------------------------------------------
 _p_reg = st.fixed_dictionaries({"n": st.integers(4, 8), "shape": gen.shapes(2, 2, 2, 3), "rank": st.integers(1, 2),
-                                "xseed": st.integers(0, 999), "n_iter": st.integers(1, 3)})
+                                "xseed": st.integers(0, 999), "n_iter": st.integers(1, 3), "ydim": st.sampled_from([0, 2, 3])})
 
 
-def _reg_data(p):
+def _reg_data(p, multi_output=False):
     g = np.random.RandomState(p["xseed"])
     X = g.standard_normal((p["n"],) + tuple(p["shape"]))
-    y = g.standard_normal(p["n"])
+    # CPRegressor also accepts labels of shape (n_samples, O_1) and draws a weight factor for the output mode
+    y = g.standard_normal((p["n"], p["ydim"])) if (multi_output and p["ydim"]) else g.standard_normal(p["n"])
     return X, y
 
 
 @entry("CPRegressor", _p_reg)
 def _e(p, rs):
-    X, y = _reg_data(p)
+    X, y = _reg_data(p, multi_output=True)
     est = CPRegressor(weight_rank=p["rank"], n_iter_max=p["n_iter"], random_state=rs, verbose=0)
     est.fit(X, y)
     return (est.weight_tensor_, est.cp_weight_, est.predict(X))
@@ -580,8 +581,8 @@ def _interpret(case):
 
 
 def subchecks(tier):
-    cost = {"generators": (400, 4000), "cp": (200, 2000), "constrained_cp_random": (120, 1200), "constrained_cp_svd": (100, 1000),
-            "tucker": (200, 2000), "parafac2_tr_ttcross": (160, 1600), "svd_sampling": (300, 3000), "regressors": (200, 2000),
-            "deterministic": (200, 2000)}
+    cost = {"generators": (400, 4000), "cp": (150, 1500), "constrained_cp_random": (100, 1000), "constrained_cp_svd": (80, 800),
+            "tucker": (150, 1500), "parafac2_tr_ttcross": (120, 1200), "svd_sampling": (300, 3000), "regressors": (160, 1600),
+            "deterministic": (150, 1500)}
     return [SubCheck(f"history/{g}", _history(g), o_history, quick=cost[g][0], thorough=cost[g][1], case_timeout=120)
             for g in GROUPS]
